@@ -423,6 +423,47 @@ def c02_7(ctx):
               "Generator.points_for_x refuses x in %s on its own; every x outside [0, p) has to be refused (x + p is the same residue, not the same encoding)" % s_.fmt("p"), sample={"refused": s_.fmt("p")})
 
 
+# ------------------------------------------------------------------ C02.8  the fixed-base table covers the order
+def c02_8(ctx):
+    """raw_mul adds one tabulated power of G per bit of the reduced scalar: the table has an entry for every bit of the group
+    order and the ladder walks all of it (256 of each is enough for the curves pycoin ships, not for a user's P-384)"""
+    f = ctx.func(GEN, "Generator.__init__")
+    orderp = [p_ for p_ in f.params() if p_ == "order"] or [f.params()[-2] if len(f.params()) >= 2 else "order"]
+    orderp = orderp[0]
+    fill = [lp for lp in ast.walk(f.node) if isinstance(lp, ast.For) and any(isinstance(c, ast.Call) and norm(c.func) == "self._powers.append" for c in ast.walk(lp))]
+    if len(fill) != 1 or not (isinstance(fill[0].iter, ast.Call) and norm(fill[0].iter.func) == "range" and len(fill[0].iter.args) == 1):
+        raise Undecided("Generator.__init__: the table of powers is not filled by one `for _ in range(<count>)` loop")
+    sdefs = df.single_defs(f.node)
+    cnt = fill[0].iter.args[0]
+    while isinstance(cnt, ast.Name) and cnt.id in sdefs:
+        cnt = sdefs[cnt.id]
+    t = norm(cnt)
+    bl = ("%s.bit_length()" % orderp, "self._order.bit_length()", "self.order().bit_length()")
+    covers = t in bl or (isinstance(cnt, ast.Call) and norm(cnt.func) == "max" and any(norm(a) in bl for a in cnt.args))
+    if covers:
+        ctx.ok("table-covers-order", sample={"entries": t})
+    elif df.const_int(cnt) is not None:
+        ctx.bad("table-covers-order", ctx.where(f, fill[0]), "Generator.__init__ tabulates a fixed %s powers of G whatever the group order: on a curve whose order is longer, raw_mul ignores the high bits of the scalar and "
+                "the fixed-base product differs from the plain ladder" % t, sample={"entries": t})
+    else:
+        ctx.undecided("table-covers-order", ctx.where(f, fill[0]), "the table has `%s` entries; this rule reads order.bit_length() (or a maximum with it) only" % t[:60])
+    g = ctx.func(GEN, "Generator.raw_mul")
+    walk_ = [lp for lp in ast.walk(g.node) if isinstance(lp, ast.For) and any(isinstance(x, ast.Subscript) and norm(x.value) == "self._powers" for x in ast.walk(lp))]
+    if len(walk_) != 1 or not (isinstance(walk_[0].iter, ast.Call) and norm(walk_[0].iter.func) == "range" and len(walk_[0].iter.args) == 1):
+        raise Undecided("Generator.raw_mul: the ladder is not one `for bit in range(<count>)` loop over self._powers")
+    c2 = walk_[0].iter.args[0]
+    gd = df.single_defs(g.node)
+    while isinstance(c2, ast.Name) and c2.id in gd:
+        c2 = gd[c2.id]
+    t2 = norm(c2)
+    if t2 == "len(self._powers)" or t2 in bl or (covers and t2 == t):
+        ctx.ok("ladder-walks-table", sample={"bits": t2})
+    elif df.const_int(c2) is not None:
+        ctx.bad("ladder-walks-table", ctx.where(g, walk_[0]), "Generator.raw_mul looks at a fixed %s bits of the reduced scalar: the bits above are ignored on a curve with a longer order" % t2, sample={"bits": t2})
+    else:
+        ctx.undecided("ladder-walks-table", ctx.where(g, walk_[0]), "raw_mul walks `%s` bits; this rule reads len(self._powers) or the bit length of the order only" % t2[:60])
+
+
 OBLIGATIONS = [
     Ob("C02.1", "every returned point is built through the on-curve-checking constructor (or is a parameter / infinity)", c02_1, floor=20, engines="SYM,CG"),
     Ob("C02.2", "Curve.add decides P = Q / P = -Q modulo p; slopes; identity cases", c02_2, floor=5, engines="SYM", breaks_if="points with unreduced coordinates (x, -y), (x, 2p - y)"),
@@ -430,5 +471,6 @@ OBLIGATIONS = [
     Ob("C02.4", "blinding offsets cancel (linear form of the fixed-base scalars)", _guarded(c02_4, _c02_resolver), floor=4, engines="LIN,SYM"),
     Ob("C02.5", "square root exponent (p+1)/4; points_for_x returns the even root first", c02_5, floor=4, engines="SYM"),
     Ob("C02.7", "coordinates outside [0, p) are not points: contains_point / points_for_x as interval sets", c02_7, floor=3, engines="SYM,GI", breaks_if="x + p, negative x"),
+    Ob("C02.8", "the fixed-base table has an entry per bit of the group order and raw_mul walks all of it", c02_8, floor=2, engines="DF", breaks_if="k * G on P-384 for k >= 2^256"),
     Ob("C02.6", "infinity is tested before any coordinate arithmetic (negation, subtraction, addition)", c02_6, floor=5, engines="SYM", breaks_if="-infinity, P - infinity"),
 ]
